@@ -1,16 +1,25 @@
 """Differential test of the X.691 reference model (models/x691.py) against asn1tools.
 
-    /verif/.venv/bin/python /verif/models/test_x691.py [-v] [--no-repo] [--no-smoke]
+    /verif/.venv/bin/python /verif/models/test_x691.py [-v] [--no-repo] [--no-corpus] [--no-edge]
+                                                       [--no-real] [--no-smoke] [--real-bitbuf]
 
 Sources of (specification, type, value) triples:
   1. every Specification.encode() call made by /repo/tests/test_per.py and test_uper.py (this
      includes the worked examples of X.691 Annex A with the octets printed in the standard);
-  2. the templates of /verif/corpus with pseudo-random values;
-  3. hand-written edge cases (EDGE below): thresholds of clauses 11.5, 11.9, 16, 17, 30 ...
-For each triple the octets of the model are compared with asn1tools' octets.  A difference is
-accepted only if its case id matches an entry of KNOWN_DEVIATIONS (asn1tools deviates from the
-standard there); the script exits 0 iff there is no other difference.  A symbolic smoke test
-(the model executed on pyfront proxies inside an engine) runs in a sub-process.
+  2. the templates of /verif/corpus with pseudo-random values (also with numeric_enums);
+  3. hand-written edge cases (EDGE below): thresholds of clauses 11.5, 11.6, 11.9, 14, 16, 17, 19,
+     21, 23, 30 ..., plus a few octet strings worked out by hand (HAND) for rules on which asn1tools
+     cannot arbitrate;
+  4. real-world specifications shipped with the repository (3GPP RRC / LPP, OMA ULP, ETSI CAM) with
+     pseudo-random values.
+For each triple the octets of the model are compared with asn1tools' octets.  A difference is accepted
+only if it is explained by an entry of KNOWN_DEVIATIONS (asn1tools deviates from the standard there) or
+of SENDERS_OPTION; most entries are *reproduced*: the model with exactly that decision changed (class
+Asn1toolsLike) must give asn1tools' octets.  The script exits 0 iff nothing else differs.  A symbolic
+smoke test (the model executed on pyfront proxies inside the engine, all paths) runs in a sub-process.
+
+The concrete runs use a plain-int bit buffer (FastBitBuf) instead of lib.bits.BitBuf, which builds one
+z3 expression per bit; the corpus part is repeated with lib.bits.BitBuf to show both agree.
 """
 import copy
 import io
@@ -71,6 +80,9 @@ KNOWN_DEVIATIONS = {
     'Q:one-character-alphabet-zero-bits':
         '(reading) 30.5.2: a one-character alphabet needs B = 0 bits, and B2 = "the smallest power of 2 that is >= B" = 1 bit per character in the '
         'ALIGNED variant; asn1tools uses 0 bits in both variants',
+    'Q:reindex-whenever-from':
+        '30.5.4: characters are re-indexed only if the largest permitted character value exceeds 2^b - 1; asn1tools re-indexes whenever a FROM '
+        'constraint is present in the UNALIGNED variant (e.g. VisibleString (FROM("!".."~")), the OMA ULP ThirdPartyID) and for BMPString in both',
     'Q:enumerated-index-not-aligned':
         '14.2 + 11.5.7.2/11.5.7.3: the index of an ENUMERATED with 256 or more root items is an octet-aligned one/two-octet field in the '
         'ALIGNED variant; asn1tools writes it as an unaligned bit-field',
@@ -99,8 +111,9 @@ KNOWN_DEVIATIONS = {
         '11.2 + 11.9.3.8: an open type whose contents are exactly 16K octets ends with a zero length octet after the fragment; asn1tools omits it',
     r'C:edge/from/.*extensible-alphabet':
         '10.3.10: an extensible permitted-alphabet constraint is not PER-visible (characters of the unconstrained type); asn1tools uses its root',
-    r'C:edge/from/bmp-low/per':
-        '30.5.4: no re-indexing when the largest permitted character value fits in B bits (BMPString FROM("a".."z"), ALIGNED: 122 <= 255); asn1tools re-indexes',
+    r'C:edge/from/printable-range/':
+        '10.3.11 + X.680 51.7: the effective permitted alphabet only holds characters of the parent type: PrintableString (FROM("A".."z")) has 52 '
+        'characters; asn1tools counts all 58 code points of the range',
     r'C:edge/from/ref-(size|from|from-ext)/':
         '10.3.18: a SIZE / FROM constraint applied to a reference to a constrained character string type is PER-visible; asn1tools ignores it',
     r'C:edge/from/NumericString\(FROM.*/per':
@@ -230,6 +243,15 @@ class Asn1toolsLike(object):
                     self.fired.add('one-character-alphabet-zero-bits')
                     return 0
                 return x691._Per.char_bits(self, N)
+
+            def reindexed(self, runs, b, t):
+                std = x691._Per.reindexed(self, runs, b, t)
+                q = std
+                if runs != x691.KNOWN_MULTIPLIER[t] and (not self.aligned or t == 'BMPString'):
+                    q = True
+                if q != std:
+                    self.fired.add('reindex-whenever-from')
+                return q
 
             def align_field(self, buf, nitems, kind):
                 if kind in ('octets', 'bits') and nitems == 0:
@@ -712,6 +734,11 @@ E('from/extensible-alphabet', 'A ::= IA5String (FROM("a".."z", ...))', ['abc'])
 E('from/visible-16', 'A ::= VisibleString (FROM("a".."p"))', ['ap', 'b'])
 E('from/visible-17', 'A ::= VisibleString (FROM("a".."q"))', ['aq', 'b'])
 E('from/bmp-256', 'A ::= BMPString (FROM("Ā".."ǿ"))', ['Āǿ'])
+E('from/visible-94', 'A ::= VisibleString (FROM("!".."~"))', ['!~', 'Az'])
+E('from/visible-65', 'A ::= VisibleString (FROM("!".."a"))', ['!a'])
+E('from/visible-64', 'A ::= VisibleString (FROM("!".."`"))', ['!`'])
+E('from/printable-65', 'A ::= PrintableString (FROM("0".."9" | "A".."Z" | "a".."z" | " " | "?" | "="))', ['0z ?='])
+E('from/printable-range', 'A ::= PrintableString (FROM("A".."z"))', ['Az'])
 E('from/bmp-low', 'A ::= BMPString (FROM("a".."z"))', ['az'])
 E('from/bmp-sparse', 'A ::= BMPString (FROM("a" | "中"))', ['a中'])
 E('from/ref-size', 'A ::= B (SIZE(1..3))\nB ::= IA5String (FROM("a".."d"))', ['a', 'abd'])
@@ -888,6 +915,78 @@ def compile_failure(tally, case, exc):
 
 
 # ---------------------------------------------------------------------------------------------
+# 4. real-world specifications of the repository with pseudo-random values
+# ---------------------------------------------------------------------------------------------
+REAL_WORLD = [(['3gpp/rrc_8_6_0.asn'], 40), (['3gpp/lpp_14_3_0.asn'], 30), (['oma/ulp.asn'], 30),
+              (['etsi/cam_pdu_descriptions_1_3_2.asn', 'etsi/its_container_1_2_1.asn'], 30)]
+
+
+def run_real_world(tally, per_type=3):
+    import asn1tools
+    for files, ntypes in REAL_WORLD:
+        paths = ['/repo/tests/files/' + f for f in files]
+        parsed = asn1tools.parse_files(paths)
+        names = sorted((m, t) for m in parsed for t in parsed[m]['types'] if 'parameters' not in parsed[m]['types'][t])
+        for codec in ('uper', 'per'):
+            spec = asn1tools.compile_dict(copy.deepcopy(parsed), codec)
+            rng = random.Random(files[0])
+            rng.shuffle(names)
+            for m, t in names[:ntypes]:
+                gen = ValueGen(parsed, rng)
+                for _k in range(per_type):
+                    try:
+                        v = gen.value({'type': t}, m)
+                    except (NotImplementedError, RecursionError):
+                        tally.skip('generator: type')
+                        break
+                    compare(tally, 'real/%s/%s/%s' % (files[0], codec, t), parsed, m, t, v, codec, lambda: spec.encode(t, v))
+
+
+# ---------------------------------------------------------------------------------------------
+# 5. a few octet strings worked out by hand from the clauses, for rules asn1tools cannot arbitrate
+#    (it deviates or cannot compile the type)
+# ---------------------------------------------------------------------------------------------
+HAND = [
+    # 21.1: SET components in canonical tag order: y BOOLEAN (UNIVERSAL 1) before z INTEGER (UNIVERSAL 2)
+    ('EXPLICIT TAGS', 'A ::= SET { z INTEGER (0..7), y BOOLEAN }', {'z': 5, 'y': True}, 'd0', 'd0'),
+    # ... an untagged CHOICE counts with its smallest tag: c (BOOLEAN in it) < b INTEGER < a OCTET STRING
+    ('EXPLICIT TAGS', 'A ::= SET { a OCTET STRING (SIZE(1)), b INTEGER (0..3), c CHOICE { p NULL, q BOOLEAN } }',
+     {'a': b'\xff', 'b': 2, 'c': ('p', None)}, 'dfe0', 'dfe0'),    # c: index of p (NULL 5 > BOOLEAN 1) = 1 -> 1 | b 10 | a 11111111
+    # 23.1: CHOICE index in canonical tag order: b BOOLEAN = 0, i INTEGER = 1
+    ('', 'A ::= CHOICE { i INTEGER (0..7), b BOOLEAN }', ('i', 5), 'd0', 'd0'),
+    ('', 'A ::= CHOICE { i INTEGER (0..7), b BOOLEAN }', ('b', True), '40', '40'),
+    # 13.2.3 / 11.7: semi-constrained INTEGER: offset from the lower bound, unsigned, minimum octets
+    ('', 'A ::= INTEGER (1..MAX)', 127, '017e', '017e'),
+    ('', 'A ::= INTEGER (1..MAX)', 256, '01ff', '01ff'),
+    ('', 'A ::= INTEGER (1..MAX)', 257, '020100', '020100'),
+    ('', 'A ::= INTEGER (-1..MAX)', 127, '0180', '0180'),
+    # 11.1.3 and 11.2: empty encodings
+    ('', 'A ::= NULL', None, '00', '00'),
+    ('AUTOMATIC TAGS', 'A ::= SEQUENCE { a BOOLEAN, ..., n NULL }', {'a': True, 'n': None}, 'c0400100', 'c0404000'),
+    # 30.5.7: 3 x 4 bits < 16: no alignment; NumericString re-indexed (space = 0, "0" = 1 ...)
+    ('', 'A ::= SEQUENCE { f BOOLEAN, v NumericString (SIZE(0..3)) }', {'f': True, 'v': '12'}, 'c460', 'c460'),
+    # 30.5.7: 2 x 8 bits = 16: aligned (ALIGNED variant)
+    ('', 'A ::= SEQUENCE { f BOOLEAN, v IA5String (SIZE(0..2)) }', {'f': True, 'v': 'a'}, 'a061', 'b840'),
+    # 14.3 + 11.6.2: 65th extension addition of an ENUMERATED: index 64 needs the long form
+    ('', 'A ::= ENUMERATED { r, ..., %s }' % ', '.join('x%d' % i for i in range(65)), 'x64', 'c00140', 'c05000'),
+]
+
+
+def run_hand(tally):
+    import asn1tools
+    from models import x691
+    for tags, body, value, per_hex, uper_hex in HAND:
+        parsed = asn1tools.parse_string(M(body, tags))
+        for aligned, want in ((True, per_hex), (False, uper_hex)):
+            got = x691.encode(parsed, 'T', 'A', value, aligned).concrete().hex()
+            if got == want:
+                tally.same += 1
+            else:
+                tally.unexpected.append(('HAND', body[:60], '%s value %r: model %s, worked out by hand %s'
+                                         % ('per' if aligned else 'uper', value, got, want)))
+
+
+# ---------------------------------------------------------------------------------------------
 # symbolic smoke test (run in a sub-process: the import hook must precede asn1tools)
 # ---------------------------------------------------------------------------------------------
 def smoke(max_paths=25):
@@ -970,6 +1069,9 @@ def main():
         run_specs(tally, corpus_specs())
     if '--no-edge' not in sys.argv:
         run_edge(tally)
+        run_hand(tally)
+    if '--no-real' not in sys.argv:
+        run_real_world(tally)
     if '--real-bitbuf' not in sys.argv and '--no-corpus' not in sys.argv:
         # the same corpus pass with the framework's BitBuf: must give the same results
         t2, t3 = Tally(), Tally()
